@@ -45,6 +45,10 @@ func (f *SymbolValue) Call(s *slip.Scope, args slip.List, depth int) slip.Object
 	if 0 < len(sym) && sym[0] == ':' {
 		return sym
 	}
+	if pkg, _, _ := slip.UnpackName(string(sym)); pkg != nil {
+		// pkg:name and pkg::name as when evaluating the symbol.
+		return s.Get(sym)
+	}
 	result, has := slip.CurrentPackage.Get(string(sym))
 	if !has || result == slip.Unbound {
 		slip.UnboundVariablePanic(s, depth, sym, "The variable %s is unbound.", sym)
